@@ -54,6 +54,7 @@ InProgBad ==
 BulkBad == \E k \in 1..Len(Ev.events) : Ev.events[k] # Ev.reported[k]
 Step ==
   CASE Ev.ev = "reset" -> TRUE
+    [] Ev.ev = "panic" -> Mark(TRUE, "I_NoPanic", l)
     [] Ev.ev = "round" -> Mark(TotalsBad, "I_Totals", l) /\ Mark(InProgBad, "I_InProgress", l)
     [] Ev.ev = "bulk" -> Mark(BulkBad, "I_Totals", l) /\ Mark(Ev.inprog_final # Ev.open_final, "I_InProgress", l)
 Next == l <= TLen /\ l' = l + 1 /\ Consumed(l) /\ Step
